@@ -30,12 +30,13 @@
 -/
 import GherkinVerif.Props.C16
 import GherkinVerif.Lemmas.LayoutDoc
+import GherkinVerif.KDecide
 namespace GV
 open Lemmas
 
 /-- fact about the regenerated table: every state has an unguarded `Empty` or `Other` test, so a
     whitespace-only line never reaches the error tail of `match_token` -/
-theorem C16_fact_blank_taken : Spec.blankTaken Gen.parserTable = true := by decide +kernel
+theorem C16_fact_blank_taken : Spec.blankTaken Gen.parserTable = true := by kdecide
 
 /-- what the two runs' final contexts have in common: error list, matcher state, id counter,
     number of matcher calls, lines read, lines reported unexpected, scanner position — equal;
@@ -157,7 +158,7 @@ example : (MState.init Gen.dialects (lit "en")).map (fun μ =>
       let r := parseWith Gen.dialects Gen.parserTable false μ 0 (toCRLF src)
       (toCRLF src == lit "Feature: f\r\n\r\n  Scenario: s\r\n    Given x\r\n      | a |\r\n",
        (match r.1 with | .ok d => some (d.feature.map Feature.name) | _ => none), r.2.ids, r.2.calls)) =
-    some (true, some (some (lit "f")), 3, 20) := by decide +kernel
+    some (true, some (some (lit "f")), 3, 20) := by kdecide
 
 /-- a rejected CRLF document (a tag with whitespace, a whitespace-only CRLF line, an unexpected
     line): three errors with their locations, composite; in stop mode the first one alone -/
@@ -168,7 +169,7 @@ example : (MState.init Gen.dialects (lit "en")).map (fun μ =>
       ((match r.1 with | .rejected es c => (es.map (fun (e : PErr) => (e.kind, e.loc)), c) | _ => ([], false)),
        (match r'.1 with | .rejected es c => (es.map (fun (e : PErr) => (e.kind, e.loc)), c) | _ => ([], true)))) =
     some (([(.tagWhitespace, ⟨4, some 1⟩), (.unexpectedToken, ⟨4, some 1⟩), (.unexpectedToken, ⟨6, some 1⟩)], true),
-          ([(.tagWhitespace, ⟨4, some 1⟩)], false)) := by decide +kernel
+          ([(.tagWhitespace, ⟨4, some 1⟩)], false)) := by kdecide
 
 /-- the hypotheses of `C16_final_newline_document` hold of a text without a final line break, which
     is accepted (2 ids, 16 matcher calls) -/
@@ -177,6 +178,6 @@ example : (lit "Feature: f\n  Scenario: s\n    Given x") ≠ [] ∧
     (MState.init Gen.dialects (lit "en")).map (fun μ =>
       let r := parseWith Gen.dialects Gen.parserTable false μ 0 (lit "Feature: f\n  Scenario: s\n    Given x")
       ((match r.1 with | .ok d => some (d.feature.map Feature.name) | _ => none), r.2.ids, r.2.calls)) =
-    some (some (some (lit "f")), 2, 16) := by decide +kernel
+    some (some (some (lit "f")), 2, 16) := by kdecide
 
 end GV
